@@ -140,7 +140,7 @@ def law_case(draw, tier):
             # overlap thresholds need not be integral (any positive number is accepted)
             frac = draw(st.sampled_from([0, 0, 0.5, 0.25]))
             if frac:
-                case["threshold"] = case["threshold"] - frac
+                case["threshold"] = max(case["threshold"] - frac, 0.25)   # must stay positive
                 if draw(st.booleans()):
                     case["threshold2"] = case["threshold2"] + 0.5
         else:
@@ -474,4 +474,64 @@ class LargeLaws(Component):
         ctx.label("large:" + m)
 
 
-COMPONENTS = [LawsRandom(), E1Batch(), Bundled(), LargeLaws()]
+@st.composite
+def transpose_missing_case(draw, tier):
+    pattern = draw(st.sampled_from(["left", "right", "both", "both"]))
+    if draw(st.integers(0, 5)) == 0:
+        case = draw(gen.ed_join_case(tier, missing=pattern, score=True, default_tok=False))
+    else:
+        case = draw(gen.set_join_case(tier, missing=pattern, score=True))
+    if draw(st.integers(0, 3)) > 0:
+        case["allow_missing"] = True
+    case["l_out"] = None
+    case["r_out"] = None
+    return case
+
+
+class TransposeMissing(Component):
+    """Transposition on tables with missing join values (allow_missing on and off): the pairs
+    with a missing side must swap like every other pair (scores NaN on both sides).  Only
+    the transposition law is checked here -- a missing pair has no score to refine or
+    partition on."""
+    name = "transpose-missing"
+    kind = "hyp"
+    rule = "allow_missing=True with a missing value on some side and >=1 returned pair"
+
+    def examples(self, tier):
+        return 300 if tier == "quick" else 1000
+
+    def strategy(self, tier):
+        return transpose_missing_case(tier)
+
+    def check(self, case, ctx):
+        L, R = canon.build_pair(case)
+        m = case["measure"]
+        lkc, rkc = calls.out_key_cols(case)
+        swapped = dict(case)
+        swapped["L"], swapped["R"] = case["R"], case["L"]
+        slk, srk = calls.out_key_cols(swapped)
+
+        def run(t, op, sw):
+            c = dict(swapped if sw else case)
+            tok = mk_tok(case["tok"]) if case["tok"] else None
+            df = calls.run_join(ctx, c, R if sw else L, L if sw else R, tok)
+            return result_map(df, slk if sw else lkc, srk if sw else rkc)
+
+        def excluded(t, op):
+            if m == "EDIT_DISTANCE":
+                return set()
+            P = calls.Pairs(case, m, t, op)
+            return set(k for k, c in P.cat.items() if c in ("bothempty", "straddle"))
+
+        laws = Laws(ctx, m, run, excluded, m.lower() + "_join (allow_missing=%r)"
+                    % case["allow_missing"])
+        base = laws.transposition(case["threshold"], case["op"])
+        lv, rv = calls.lvals(case), calls.rvals(case)
+        has_missing = any(oracle.is_missing(v) for v in lv + rv)
+        ctx.nontrivial(bool(base) and has_missing and case["allow_missing"])
+        ctx.label("measure=" + m)
+        ctx.label("allow_missing", case["allow_missing"])
+        ctx.label("dup-index", len(set(map(repr, case["L"]["index"]))) < len(case["L"]["index"]))
+
+
+COMPONENTS = [LawsRandom(), E1Batch(), Bundled(), LargeLaws(), TransposeMissing()]
